@@ -23,6 +23,12 @@ def parseOp (t : String) : Option Op :=
   | ["front", h, v] => do pure (Op.upd (← h.toNat?) (.front (← v.toInt?)))
   | ["back", h, v] => do pure (Op.upd (← h.toNat?) (.back (← v.toInt?)))
   | ["append", h, w] => do pure (Op.upd (← h.toNat?) (.append (← parseInts? w)))
+  | ["vhadd", h, w] => do pure (Op.upd (← h.toNat?) (.addL (← parseInts? w)))
+  | ["vhsub", h, w] => do pure (Op.upd (← h.toNat?) (.subL (← parseInts? w)))
+  | ["vhmul", h, w] => do pure (Op.upd (← h.toNat?) (.mulL (← parseInts? w)))
+  | ["vhscale", h, c] => do pure (Op.upd (← h.toNat?) (.scale (← c.toInt?)))
+  | ["vhshift", h, c] => do pure (Op.upd (← h.toNat?) (.shift (← c.toInt?)))
+  | ["vhcum", h] => do pure (Op.upd (← h.toNat?) .cumsum)
   | _ => none
 
 def fmtVals (vals : List Buf) : String := "|".intercalate (vals.map fmtInts)
